@@ -32,6 +32,7 @@ NODE = 'dtn://me/'
 
 def prepare():
     boot.bp()
+    boot.udpcl()
 
 
 def budgets(tier):
@@ -100,6 +101,11 @@ def enumerate_cases(tier):
         _wire, bits = protected_bits(seed_bundle(idx))
         for first in bits[::8]:
             yield {'kind': 'input', 'seed_bundle': idx, 'faults': [[first, 8, pattern] for pattern in range(1, 256)]}
+    # the same through a real UDPCL agent, which cuts the bundle message out of the datagram before the BP agent sees it
+    for idx in range(3 if tier == 'quick' else 40):
+        _wire, bits = protected_bits(seed_bundle(idx))
+        for first in bits[::8]:
+            yield {'kind': 'input', 'seed_bundle': idx, 'via': 'udpcl', 'faults': [[first, 8, pattern] for pattern in range(1, 256)]}
 
 
 @st.composite
@@ -122,7 +128,7 @@ def input_cases(draw):
         width = draw(st.one_of(st.just(1), st.integers(2, 32)))
         pattern = draw(st.integers(1, 2 ** width - 1)) | 1 | (1 << (width - 1))
         faults.append([start, width, pattern])
-    return {'kind': 'input', 'bundle': bundle, 'faults': faults}
+    return {'kind': 'input', 'bundle': bundle, 'faults': faults, 'via': draw(st.sampled_from([None, None, 'udpcl']))}
 
 
 @st.composite
@@ -172,6 +178,13 @@ def run_input(case, out):
     bundle = case['bundle'] if 'bundle' in case else seed_bundle(case['seed_bundle'])
     wire = r.encode(bundle)
     node = make_node()
+    udp = None
+    if case.get('via') == 'udpcl' and len(wire) < 60000:
+        from vlib import udpcl_machine as um, simudp
+        simudp.NET.reset()
+        udp = um.Agent('10.0.0.9', listen_port=4556, node_id='dtn://me/')
+        udp.settle()
+        out.label('via-udpcl')
     nontrivial = False
     for fault in case['faults']:
         bad = apply_fault(wire, fault)
@@ -186,7 +199,20 @@ def run_input(case, out):
         out.count('corruptions_fed')
         out.count('single_bit_flips' if fault[1] == 1 else ('octet_substitutions' if len(case['faults']) == 255 else 'bursts'))
         n_rec, n_sent, n_seen = len(node.records(False)), len(node.sent()), len(node.agent._seen_bundle_ident)
-        node.receive(bad)
+        if udp is not None:
+            # the datagram reaches a real UDPCL agent first; what that agent announces as received bundles is handed on
+            before = len(udp.signals('recv_bundle_finished'))
+            simudp.NET.deliver(dict(src=('10.0.0.7', 4556), dst=('10.0.0.9', 4556), data=bad))
+            udp.settle()
+            for ev in udp.signals('recv_bundle_finished')[before:]:
+                got = udp.call('recv_bundle_pop_data', ev['args'][0])
+                if not hasattr(got, 'exc'):
+                    out.count('handed-on-by-udpcl')
+                    if bytes(got) != bad:
+                        out.count('handed-on-by-udpcl-differs-from-datagram')
+                    node.receive(bytes(got))
+        else:
+            node.receive(bad)
         decodes = True
         try:
             cborpull.parse_all(bad)
@@ -218,7 +244,16 @@ def run_input(case, out):
                      % (fault[0], fault[1], where, wire[fault[0] // 8], bad[fault[0] // 8], len(new_rec), len(new_sent), grew, why))
     # black box: the pristine bundle is still news to the agent
     n_rec, n_sent = len(node.records(False)), len(node.sent())
-    err = node.receive(wire)
+    err = None
+    if udp is not None:
+        before = len(udp.signals('recv_bundle_finished'))
+        simudp.NET.deliver(dict(src=('10.0.0.7', 4556), dst=('10.0.0.9', 4556), data=wire))
+        udp.settle()
+        for ev in udp.signals('recv_bundle_finished')[before:]:
+            got = udp.call('recv_bundle_pop_data', ev['args'][0])
+            err = node.receive(bytes(got))
+    else:
+        err = node.receive(wire)
     if err is not None:
         out.fail('pristine-raises', 'the pristine bundle raised %s: %s' % (type(err).__name__, err))
     elif len(node.sent()) == n_sent and len(node.records(False)) == n_rec:
